@@ -378,7 +378,7 @@ impl EventGen for OtherElement {
         context.update_element(&e);
         let mut bb = context.get_element_bbox(&e)?;
         if bb.is_some() {
-            context.set_prev_element(&e);
+            context.set_prev_element_from(&e, &self.0);
         }
         let events = e.element_events(context)?;
         for svg_ev in events {
